@@ -237,7 +237,7 @@ Section dispatch.
       apply bool_decide_eq_true in Hin.
       destruct (get_t udp s !! c) as [l|] eqn:Hl; cbn [default] in *.
       + rewrite insert_id by exact Hl. apply set_t_get_t.
-      + inversion Hin.
+      + cbn in Hin. inversion Hin.
     - unfold remove_tfront in H. destruct (get_t udp s !! c) as [l|] eqn:Hl; [|inv_pair H; reflexivity].
       destruct (_ =? _)%nat eqn:Hlen; inv_pair H.
       apply Nat.eqb_eq in Hlen. apply stdpp_filter_length_eq in Hlen. rewrite Hlen.
